@@ -56,6 +56,14 @@ func (x *Exec) iterOf(st *State, v Val) *IterState {
 func (x *Exec) iterKey(st *State, it *IterState) *KeyVal {
 	k := Select(it.Seq, it.Idx)
 	kv := &KeyVal{Fam: it.Fam}
+	if len(it.Fam.KeySorts) > 1 {
+		// eta: a tuple key is the tuple of its components (lets quantified facts about (q, i) pairs fire)
+		var fs []*Term
+		for i := range it.Fam.KeySorts {
+			fs = append(fs, SelField(k, i))
+		}
+		st.assume(Eq(k, Con(it.Fam.KeySort, fs...)))
+	}
 	switch len(it.Fam.KeySorts) {
 	case 0:
 	case 1:
